@@ -10,6 +10,8 @@ TimeVecsQ == {<<0,0,1,2>>}
 FlagVecsQ == {<<1,1,0,0>>, <<0,1,1,0>>}
 TimeVecsT == {<<0,0,1,2>>, <<0,1,1,2>>, <<0,0,1,1>>}
 FlagVecsT == {<<1,1,0,0>>, <<1,1,1,0>>, <<0,1,0,1>>}
+TimeVecsS == {<<0,0,1,2>>, <<0,1,2,3>>}
+FlagVecsS == {<<1,1,0,0>>, <<1,1,1,0>>, <<1,1,1,1>>, <<1,0,1,1>>}
 
 TrackedChoices(t) == LET S == SamplesOf(t) IN
    IF TrackedMode = 1 THEN (IF S = {} THEN {{}} ELSE {{Min(S)}})
